@@ -116,10 +116,90 @@ fn sweep(alpha: &Alphabet, max: usize, extras_upto: usize, light_from: usize, di
     total
 }
 
+/// Every flat infix sequence `x0 op x1 op ... xL` over the 14 binary operators: the reference tree
+/// comes from precedence climbing, independent of the AST enumeration and of the renderer.
+fn flat_sequences(max_len: usize) -> Stats {
+    use crate::refmodel::ops::BINOPS;
+    let mut total = Stats::new();
+    for len in 1..=max_len {
+        let count = (BINOPS.len() as u64).pow(len as u32);
+        total.merge(par_chunks(count, 4096, |r| {
+            let mut st = Stats::new();
+            for code in r {
+                let mut c = code;
+                let ops: Vec<_> = (0..len)
+                    .map(|_| {
+                        let o = BINOPS[(c % 14) as usize];
+                        c /= 14;
+                        o
+                    })
+                    .collect();
+                let operands: Vec<Ast> = (0..=len).map(super::scale::var).collect();
+                let ast = super::scale::climb(&operands, &ops);
+                let want = ast_to_nt(&ast);
+                let toks = Renderer::render(&ast, Parens::Minimal).out;
+                if toks.iter().any(|t| matches!(t, Tok::Sym("(") | Tok::Sym(")"))) {
+                    machinery_error("C02: precedence climbing and the minimal renderer disagree on a flat sequence");
+                }
+                check_rendering(&ast, &want, Parens::Minimal, false, &mut st);
+                check_rendering(&ast, &want, Parens::Minimal, true, &mut st);
+                if len >= 5 {
+                    st.count("nontrivial-distinct");
+                }
+                st.count("flat-sequences");
+            }
+            st
+        }));
+    }
+    total
+}
+
+/// Structured large inputs: chains, ladders and nestings of every size in `scale::sizes`.
+fn scaling(thorough: bool) -> Stats {
+    use super::scale::*;
+    use crate::refmodel::ops::{BinOp, BINOPS};
+    super::on_big_stack(move || {
+        let mut st = Stats::new();
+        for n in sizes(thorough) {
+            let mut asts: Vec<Ast> = Vec::new();
+            for op in BINOPS {
+                asts.push(left_chain(op, n));
+            }
+            asts.push(assign_chain(n));
+            asts.push(prefix_chain(n));
+            asts.push(call_chain(n));
+            for op in [BinOp::Add, BinOp::Exp, BinOp::Or] {
+                asts.push(right_nested(op, n));
+            }
+            // precedence ladders: operators cycling through the table upwards and downwards
+            let up: Vec<BinOp> = (0..n).map(|i| [BinOp::Or, BinOp::And, BinOp::Eq, BinOp::Add, BinOp::Mul, BinOp::Exp][i % 6]).collect();
+            let down: Vec<BinOp> = up.iter().rev().cloned().collect();
+            let operands: Vec<Ast> = (0..=n).map(var).collect();
+            asts.push(climb(&operands, &up));
+            asts.push(climb(&operands, &down));
+            // an assignment whose right-hand side is a long ladder, inside a call
+            asts.push(Ast::Call("f".into(), Box::new(Ast::Asg(None, "p".into(), Box::new(climb(&operands, &up))))));
+            for ast in asts {
+                let want = ast_to_nt(&ast);
+                for compact in [false, true] {
+                    check_rendering(&ast, &want, Parens::Minimal, compact, &mut st);
+                    check_rendering(&ast, &want, Parens::Full, compact, &mut st);
+                }
+                check_rendering(&ast, &want, Parens::Extra(n / 2, true), false, &mut st);
+                st.count("scaling-family-asts");
+                st.count("nontrivial-distinct");
+            }
+        }
+        st
+    })
+}
+
 pub fn run(cfg: &Cfg) -> Report {
     let (k_full, k_rep, light_from) = cfg.tier.pick((3, 4, 99), (4, 6, 6));
     let mut stats = sweep(&Alphabet::full(), k_full, 2, 99, 0, "full-alphabet");
     stats.merge(sweep(&Alphabet::representatives(), k_rep, 2, light_from, k_full + 1, "class-representatives"));
+    stats.merge(flat_sequences(cfg.tier.pick(5, 6)));
+    stats.merge(scaling(cfg.tier == Tier::Thorough));
     // samples
     let alpha = Alphabet::full();
     let counts = shape_counts(&alpha, 3);
@@ -137,7 +217,7 @@ pub fn run(cfg: &Cfg) -> Report {
     Report {
         property: ID,
         level: "exploration",
-        rule: format!("every AST with <= {k_full} operator nodes over the full alphabet (14 binary, 2 prefix, 9 assignment operators, f e, f(), f(l, r)) and with <= {k_rep} over one representative per precedence/associativity class; per AST: all-variable leaves plus each leaf replaced by a literal (all four literal kinds for ASTs with <= 2 operators, kinds cycled above); renderings: minimal parentheses, fully parenthesised, `x ^ -y` bare-prefix form where applicable, redundant pair (single and doubled) at every sub-expression for ASTs with <= 2 operators and at one rotating position above; each with single-space and compact spacing. the deepest representative level of the thorough tier is checked with the minimal rendering only. Non-trivial = at least two operator nodes; every AST is enumerated once (representative ASTs are counted only above the full-alphabet size)"),
+        rule: format!("every AST with <= {k_full} operator nodes over the full alphabet (14 binary, 2 prefix, 9 assignment operators, f e, f(), f(l, r)) and with <= {k_rep} over one representative per precedence/associativity class; per AST: all-variable leaves plus each leaf replaced by a literal (all four literal kinds for ASTs with <= 2 operators, kinds cycled above); renderings: minimal parentheses, fully parenthesised, `x ^ -y` bare-prefix form where applicable, redundant pair (single and doubled) at every sub-expression for ASTs with <= 2 operators and at one rotating position above; each with single-space and compact spacing. the deepest representative level of the thorough tier is checked with the minimal rendering only; plus every flat infix sequence of <= 5 (quick) / 6 (thorough) binary operators over all 14 (reference: precedence climbing), plus scaling families (same-operator chains for all 14 operators, assignment chains, prefix chains, call chains, right-nested groups, precedence ladders up and down) at every size 1..20 and 33, 64, 65, 129 (quick) / 1..40 and up to 400 (thorough). Non-trivial = at least two operator nodes; every AST is enumerated once (representative ASTs are counted only above the full-alphabet size)"),
         nontrivial_set: "counter:nontrivial-distinct",
         exhaustive: true,
         bound_completed: format!("AST size {k_full} (full alphabet), {k_rep} (class representatives)"),
